@@ -89,7 +89,7 @@ KNOWN = {}
 def install_crc_loop_contract(c):
     """the byte loop of crc() through its body contract (obligation crc/byte-step): r' = 8 bitwise steps, for the tables the
     obligation covers; the table argument is identified by its contents"""
-    from pyvc.sym import EngineError
+    from pyvc.errors import EngineError
     def h(I, env):
         table = env.lookup('table'); r = env.lookup('r'); b = env.lookup('b')
         key = id(table)
